@@ -383,6 +383,43 @@ pub fn cyclic_parents(rng: &mut Rng, layout: &Layout) -> DocSpec {
     b.finish(catalog, &layout, rng)
 }
 
+/// Optional fields that name objects which do not exist: a /Pages node whose /Parent is an undefined
+/// number, one whose /Parent is a freed number, a font whose /ToUnicode is freed and whose descriptor
+/// names an undefined /FontFile2, two pages whose /Resources are a freed and an undefined number; all beside two healthy pages. ("References to non-existing
+/// objects ought not to be an error", says the library; whatever it answers, it must answer the same
+/// with and without caches and whatever was called before.)
+pub fn dangling(rng: &mut Rng, layout: &Layout) -> DocSpec {
+    let mut b = Builder::new();
+    let catalog = b.reserve();
+    let pages = b.reserve();
+    let undefined = b.reserve();
+    let freed = b.reserve();
+    let descriptor = b.add(Val::dict(vec![("Type", Val::name("FontDescriptor")), ("FontName", Val::name("Dangle")), ("Flags", Val::Int(4)), ("FontFile2", Val::r(undefined))]));
+    let font = b.add(Val::dict(vec![
+        ("Type", Val::name("Font")),
+        ("Subtype", Val::name("TrueType")),
+        ("BaseFont", Val::name("Dangle")),
+        ("FirstChar", Val::Int(65)),
+        ("LastChar", Val::Int(66)),
+        ("Widths", Val::ints(&[500, 600])),
+        ("FontDescriptor", Val::r(descriptor)),
+        ("ToUnicode", Val::r(freed)),
+    ]));
+    let p1 = b.add(Val::dict(vec![("Type", Val::name("Page")), ("Parent", Val::r(pages)), ("MediaBox", rect(0, 0, 100, 100)), ("Resources", Val::dict(vec![("Font", Val::dict(vec![("F1", Val::r(font))]))]))]));
+    let p2 = b.add(Val::dict(vec![("Type", Val::name("Page")), ("Parent", Val::r(pages)), ("Resources", Val::dict(vec![]))]));
+    let p3 = b.add(Val::dict(vec![("Type", Val::name("Page")), ("Parent", Val::r(pages)), ("Resources", Val::r(freed))]));
+    let p4 = b.add(Val::dict(vec![("Type", Val::name("Page")), ("Parent", Val::r(pages)), ("Resources", Val::r(undefined))]));
+    let n_undef = b.add(Val::dict(vec![("Type", Val::name("Pages")), ("Parent", Val::r(undefined)), ("Kids", Val::Arr(vec![])), ("Count", Val::Int(0))]));
+    let n_freed = b.add(Val::dict(vec![("Type", Val::name("Pages")), ("Parent", Val::r(freed)), ("Kids", Val::Arr(vec![])), ("Count", Val::Int(0))]));
+    b.put(pages, Val::dict(vec![("Type", Val::name("Pages")), ("Kids", Val::Arr(vec![Val::r(p1), Val::r(p2), Val::r(p3), Val::r(p4), Val::r(n_undef), Val::r(n_freed)])), ("Count", Val::Int(4)), ("MediaBox", rect(0, 0, 200, 200))]));
+    b.put(catalog, Val::dict(vec![("Type", Val::name("Catalog")), ("Pages", Val::r(pages))]));
+    let mut layout = layout.clone();
+    layout.keep_direct.push(catalog);
+    let mut spec = b.finish(catalog, &layout, rng);
+    spec.revisions[0].slots.insert(freed, Slot::Free { gen: 1 });
+    spec
+}
+
 /// A page tree as deep as `File::get_page` accepts (the root plus up to 15 nested /Pages nodes),
 /// with a leaf at the bottom and one at every third level.
 pub fn deep_tree(rng: &mut Rng, layout: &Layout) -> DocSpec {
@@ -433,6 +470,7 @@ pub enum Family {
     DeepTree,
     /// `Rich`, written encrypted (RC4, 40 or 128 bit, plain or through crypt filters; empty user password)
     RichEncrypted,
+    Dangling,
 }
 impl Family {
     pub fn name(&self) -> &'static str {
@@ -442,6 +480,7 @@ impl Family {
             Family::CyclicParents => "cyclic_parents",
             Family::DeepTree => "deep_tree",
             Family::RichEncrypted => "rich_encrypted",
+            Family::Dangling => "dangling",
         }
     }
 }
@@ -456,6 +495,7 @@ pub fn generate(family: &Family, rng: &mut Rng) -> DocSpec {
         Family::TwoLeaf => two_leaf(rng, &layout),
         Family::CyclicParents => cyclic_parents(rng, &layout),
         Family::DeepTree => deep_tree(rng, &layout),
+        Family::Dangling => dangling(rng, &layout),
         Family::RichEncrypted => {
             let o = RichOpts::random(rng);
             let mut layout = layout;
